@@ -413,6 +413,8 @@ func c24Run(line string) string {
 		return c24Own(f)
 	case "d":
 		return c24RunD(f)
+	case "t":
+		return c24RunT(f)
 	}
 	return "bad-op"
 }
@@ -516,6 +518,9 @@ func c24Gen(r *vhRng) string {
 	}
 	if r.Chance(1, 4) {
 		return c24GenD(r)
+	}
+	if r.Chance(1, 8) {
+		return c24GenT(r)
 	}
 	c := &c24Case{}
 	c24Cfg(r, c)
